@@ -106,6 +106,45 @@ def rmw_sites(f, v, b):
     return out
 
 
+def scribble_all(x):
+    """like scribble(), and integer leaves too (a caller editing the result it was given)"""
+    n = scribble(x)
+    if isinstance(x, dict):
+        for k, v in list(x.items()):
+            if isinstance(v, int) and not isinstance(v, bool):
+                x[k] = v ^ 1
+                n += 1
+            elif isinstance(v, (dict, list)):
+                n += scribble_all(v)
+    elif isinstance(x, list):
+        for v in x:
+            if isinstance(v, (dict, list)):
+                n += scribble_all(v)
+    return n
+
+
+def built_bytes_are_private(ctx, f, d, wit):
+    """what a builder returned is the caller's: padding / patching it in place must not show up in a later build"""
+    try:
+        first = f.lib_build(copy.deepcopy(d))
+    except Exception:  # noqa: BLE001
+        return
+    snap = bytes(first)
+    if isinstance(first, bytearray):
+        first += b"\xAA\xBB\xCC\xDD" * 4
+        for i in range(min(len(first), 8)):
+            first[i] ^= 0xFF
+    try:
+        second = f.lib_build(copy.deepcopy(d))
+    except Exception as e:  # noqa: BLE001
+        ctx.fail("C06:%s.second_build_raises.%s" % (f.name, type(e).__name__), "building again after the first result was edited in place raised %s" % e, wit, exc=e)
+        return
+    ctx.count("builds_after_edit_of_earlier_output")
+    if bytes(second) != snap:
+        ctx.fail("C06:%s.build_depends_on_earlier_output" % f.name, "%s: a later build from an equal dictionary returns %s..., the first returned %s... (its output was edited in place in between)"
+                 % (f.name, bytes(second)[:16].hex(), snap[:16].hex()), wit)
+
+
 def scribble(x):
     """change every bytearray leaf of a parsed result in place (the caller owns what a parser returned)"""
     n = 0
@@ -147,6 +186,12 @@ def run(shard, ctx):
     if shard["id"] == "transportids":
         return run_tids(shard, ctx, rng)
     f = D.FORMATS[shard["fmt"]]
+    # minimal dictionaries (optional lists left out): whatever the builder makes of them, it makes it every time
+    probe = D.strip_private(f.expect(canonical(f, f.gen(rng))))
+    minimal = [{}, {k: v for k, v in probe.items() if not isinstance(v, (list, dict))}, {k: ([] if isinstance(v, list) else v) for k, v in probe.items()}]
+    for d0 in minimal:
+        ctx.case((f.name, "minimal", repr(sorted(d0))), False)
+        built_bytes_are_private(ctx, f, d0, {"format": f.name, "dictionary": d0})
     for mode in modes(f, shard):
         v = canonical(f, f.gen(rng, mode))
         b = f.encode(v)
@@ -167,6 +212,7 @@ def run(shard, ctx):
             ctx.fail("C06:%s.build_raises.%s" % (f.name, type(e).__name__), "%s.marshall_datain(parser-vocabulary dict) raised %s: %s" % (f.name, type(e).__name__, e), wit, exc=e)
             built = None
         if built is not None:
+            built_bytes_are_private(ctx, f, d, wit)
             try:
                 back = f.lib_decode(built, v)
                 seen = set()
